@@ -504,6 +504,13 @@ class PathEnumerator:
                 seen[e.text] = (e.truth, names)
         return out
 
+    @staticmethod
+    def _parse(text):
+        try:
+            return ast.parse(text, mode='eval').body
+        except SyntaxError:
+            return None
+
     def _is_dispatch(self, test):
         return isinstance(test, ast.Call) and src(test.func) == 'isinstance' and len(test.args) == 2 \
             and isinstance(test.args[0], ast.Name) and test.args[0].id in self.dispatch_subjects \
@@ -625,9 +632,9 @@ class PathEnumerator:
                 # match/case or as an if/elif chain
                 implied = self._pattern_test(st.subject, case.pattern)
                 for t_text in earlier:
-                    evs.append(Ev('cond', case.pattern.lineno, None, text=t_text, truth=False, ctor='match'))
+                    evs.append(Ev('cond', case.pattern.lineno, self._parse(t_text), text=t_text, truth=False, ctor='match'))
                 if implied and case.guard is None:
-                    evs.append(Ev('cond', case.pattern.lineno, None, text=implied, truth=True, ctor='match'))
+                    evs.append(Ev('cond', case.pattern.lineno, self._parse(implied), text=implied, truth=True, ctor='match'))
                 if implied and case.guard is None:
                     earlier.append(implied)
                 binds = [n.name for n in ast.walk(case.pattern)
